@@ -73,6 +73,22 @@ unsigned int un(unsigned int a, unsigned int b) { return a / b + a % b + (a > b 
 int inv(int a) { return ~a; }
 char cc(char a) { return -a; }
 '''
+C_PTR = r'''
+int garr2[10];
+int idf(int x) { return x; }
+long pdiff(char *a, char *b) { return a - b; }
+long idiff(int *a, int *b) { return a - b; }
+long p2l(void *p) { return (long)p; }
+unsigned long pmask(void *p) { return (unsigned long)p & 3; }
+void *l2p(long x) { return (void*)x; }
+int pcmp(int *a, int *b) { return (a < b) + (a == b) + (a >= b); }
+unsigned long fp2i(void) { return (unsigned long)idf; }
+char p2c(void *p) { return (char)(long)p; }
+int p2i(void *p) { return (int)(long)p; }
+long aligned(int *p) { return ((unsigned long)p + 7) & ~7ul; }
+int *idx(int i) { return &garr2[i]; }
+void *slot; long asint(void) { return (long)slot; } void setp(long v) { slot = (void*)v; }
+'''
 C_FLOAT = r'''
 double gd; float gf;
 double fd(double a, double b) { return a * b + a / b - (a - b); }
@@ -354,8 +370,31 @@ def compile_corpus(ctx, tname, info, excl, nmods, levels, opts, with_c=True):
                     rec.update({'module_seed': seed, 'size': 1 + i % 3, 'opt_level': lvl, 'opt': opt})
                     per_class[rec['class']] = per_class.get(rec['class'], 0) + 1
                     ctx.violation(rec)
+        # pointer <-> integer traffic (hand-built IR), levels 0 and 2
+        ints = [t for t in types if t.is_integer]
+        pbits = int(info['desc']['ptr'][1:])
+        for lvl in levels:
+            m = rp.ptr_module(ints, pbits)
+            try:
+                verify_module(m)
+                if lvl:
+                    api.optimize(m, level=lvl)
+                    verify_module(m)
+            except Exception:   # noqa: BLE001
+                skipped['optimizer_exception'] += 1
+                continue
+            n0 = len(h.errors)
+            try:
+                api.ir_to_object([m], info['march'])
+            except Exception as e:   # noqa: BLE001
+                h.errors.append(('<module ptrs>', e, traceback.format_exc(), None, None))
+            for err in h.errors[n0:]:
+                rec, _ = classify(tname, info, excl, err)
+                rec.update({'ir': 'props.c29_replay.ptr_module', 'opt_level': lvl})
+                per_class[rec['class']] = per_class.get(rec['class'], 0) + 1
+                ctx.violation(rec)
         if with_c:
-            srcs = [('c1', C_SRC), ('c2', C_SRC2)] + ([('cf', C_FLOAT)] if any(not t.is_integer for t in types) else [])
+            srcs = [('c1', C_SRC), ('c2', C_SRC2), ('cp', C_PTR)] + ([('cf', C_FLOAT)] if any(not t.is_integer for t in types) else [])
             for nm, src in srcs:
                 n0 = len(h.errors)
                 try:
@@ -500,6 +539,12 @@ def witness_for(op, tys, ptr):
     return None
 
 
+def ptr_like(desc):
+    """names of the integer types as wide as a pointer (a REG leaf of such a type may hold an ir.ptr value)"""
+    bits = int(desc['ptr'][1:])
+    return {t['name'] for t in desc['types'] if t['int'] and t['bits'] == bits}
+
+
 def try_tree(tree_text, march):
     try:
         m = rp.build_module(rp.parse_tree(tree_text))
@@ -524,6 +569,11 @@ def diagnose(ctx, info_all, excl, build_out='', built=False):
         ctx.log('%s: closure check fails; minimal uncovered trees of the model: %s' % (tname, trees[:8]))
         for tr in trees[:12]:
             res = try_tree(tr, march)
+            if res is None:      # the operator may only arise from a ptr-typed operand (do_cast): retry with ptr registers
+                try:
+                    res = rp.try_compile(rp.build_module(rp.parse_tree(tr), reg_as_ptr=ptr_like(info_all[tname]['desc'])), march)
+                except Exception:   # noqa: BLE001
+                    res = None
             rec = {'fn': 'select', 'target': tname, 'class': 'uncovered-tree', 'tree': tr,
                    'key': 'uncovered %s %s' % (tname, tr.split('(')[0]),
                    'model': 'no cover from unconditional rules (Model.BurgCover.uncovered)',
